@@ -26,6 +26,11 @@ inline uint64_t budget_for(size_t in_bytes, size_t in_gran, size_t out_bytes, si
   return 50000 + 400 * units;
 }
 
+// without -n the worker count comes from sysconf(_SC_NPROCESSORS_ONLN), which the plan's CPU count serves
+inline void use_default_workers(RunCfg &c) {
+  for (size_t i = 0; i + 1 < c.argv.size(); i++) if (c.argv[i] == "-n") { c.ncpu = atoi(c.argv[i + 1].c_str()); c.argv.erase(c.argv.begin() + i, c.argv.begin() + i + 2); return; }
+}
+
 // compression run configuration
 inline RunCfg compress_cfg(Rng &rng, int level, bool seq, int W, bool vary_io) {
   RunCfg c;
